@@ -360,3 +360,21 @@ LEVEL_TEXT += _ADD11
 _ADD22 = ' Borrowed: R09.6 (field reflection is the same before and after @dataclass ran).'
 EXPLANATION += _ADD22
 LEVEL_TEXT += _ADD22
+
+
+_run_before_r5 = run
+
+
+def run(repo, rep, tier):  # noqa: F811 -- round-5 borrowings appended to the rules above
+    _run_before_r5(repo, rep, tier)
+    if getattr(rep, "borrowed", False):
+        return
+    from ..core import round5 as _r5
+    from ..core.report import Only as _O5
+    from . import c13 as _c13b
+    from ..core import corpus as _corp5
+    _c13b._slots(repo, _O5(rep, {"R13.6", "R13.10"}), _corp5.explore_all(repo, tier))
+
+_ADDR5D = ' Borrowed: R13.6 / R13.10 (first call and later calls with a dialect go through the same call text: encoder options and arguments agree on the cache-hit and the compile path).'
+EXPLANATION += _ADDR5D
+LEVEL_TEXT += _ADDR5D
